@@ -152,17 +152,28 @@ def run(rep, tier):
     if ctx.get(('uscxml::LuaDataModel', 'evalAsData')) != 'expression' or ctx.get(('uscxml::LuaDataModel', 'isValidSyntax')) != 'statement':
         raise AnalysisBroken('Lua data model contexts not recognised: %s' % ctx)
     sites = 0
+    vdefs = path.local_defs(val)
     for n in val.walk():
         q = n.get('callee', {}).get('q', '')
         if q not in ('uscxml::DataModel::isValidSyntax', 'uscxml::DataModel::isLegalDataValue'):
             continue
         arg = n['c'][1]
-        names = {s.get('ref', {}).get('name') for s in sub(arg)}
+        # the argument with its string locals looked through (const std::string expr = ATTR(...); check("foo = " + expr))
+        parts = [arg]
+        seen_l = set()
+        for _ in range(3):
+            for pnode in list(parts):
+                for s_ in sub(pnode):
+                    lid_ = s_.get('ref', {}).get('lid') if s_['k'] == 'DeclRefExpr' else None
+                    if lid_ is not None and lid_ not in seen_l and lid_ in vdefs:
+                        seen_l.add(lid_)
+                        parts += [i_ for i_ in vdefs[lid_] if i_ is not None]
+        names = {s.get('ref', {}).get('name') for pn in parts for s in sub(pn)}
         attr = [a for a in list(EXPRESSION_ATTRS) + list(LOCATION_ATTRS) if a in names]
         if not attr:
             continue     # script content: a statement list by definition
         sites += 1
-        lits = [s['str'] for s in sub(arg) if s['k'] == 'StringLiteral' and 'str' in s]
+        lits = [s['str'] for pn in parts for s in sub(pn) if s['k'] == 'StringLiteral' and 'str' in s]
         wrapper_expr = any(l.strip().endswith('=') for l in lits)
         wrapper_loc = any(l.strip().startswith('=') for l in lits)
         meth = q.split('::')[-1]
@@ -211,6 +222,238 @@ def run(rep, tier):
 
     # ---- R19.5 / R19.6
     loop_carried(rep, fb)
+    # ---- R19.7 / R19.8
+    pair_enumeration(rep, fb)
+    lookup_tables(rep, fb)
+    nearest_common_ancestor(rep, fb)
+
+
+def lookup_tables(rep, fb):
+    """R19.8: presence tests of the validator's id tables stay truthful"""
+    from .C08 import edge_dominates
+    rep.rule('R19.8', 'queries do not grow the id tables: a std::map of the validator that is consulted with find()/count() presence tests is never read with operator[] (which inserts a null entry for an unknown id) at a point from which such a presence test can still be reached, unless the read itself is under a presence test for the same key; entries are only created by explicit assignment')
+    n_tabs = n_reads = 0
+    for f in [f_ for f_ in fb.funcs.values() if f_.file.endswith('debug/InterpreterIssue.cpp') and f_.d.get('cfg')]:
+        maps = {}
+        for n in f.walk():
+            if n['k'] == 'DeclStmt':
+                for d in n.get('decls', []):
+                    # tables of elements: the mapped type is a pointer, operator[] on an unknown id creates a null entry
+                    if re.match(r'(const )?std::map<.*\*\s*(,.*)?>$', d.get('t') or ''):
+                        maps[d['lid']] = d
+        if not maps:
+            continue
+        g = cfgm.CFG(f)
+
+        def base_lid(call):
+            if not call.get('c'):
+                return None
+            b = call['c'][0]['c'][0] if call['k'] == 'CXXMemberCallExpr' and call['c'][0].get('c') else call['c'][1] if call['k'] == 'CXXOperatorCallExpr' and len(call['c']) > 1 else None
+            b = strip(b) if b is not None else None
+            return b['ref'].get('lid') if b is not None and b['k'] == 'DeclRefExpr' else None
+
+        def key_text(call):
+            a = call['c'][1] if call['k'] == 'CXXMemberCallExpr' and len(call['c']) > 1 else call['c'][2] if call['k'] == 'CXXOperatorCallExpr' and len(call['c']) > 2 else None
+            return ' '.join(fb.text(a).split()) if a is not None else None
+        tests = {}        # lid -> [(cond block id, key text, label under which the key is present)]
+        for bid, blk in g.blocks.items():
+            c = blk.get('cond')
+            if c is None or c not in f.nodes:
+                continue
+            cn = strip(f.nodes[c])
+            neg = False
+            while cn is not None and cn['k'] == 'UnaryOperator' and cn.get('op') == '!':
+                neg = not neg
+                cn = strip(cn['c'][0])
+            if cn is None:
+                continue
+            if cn['k'] in ('CXXOperatorCallExpr', 'BinaryOperator') and cn.get('op') in ('==', '!='):
+                finds = [x for x in sub(cn) if x['k'] == 'CXXMemberCallExpr' and x.get('callee', {}).get('q', '').split('::')[-1] == 'find' and base_lid(x) in maps]
+                ends = [x for x in sub(cn) if x['k'] == 'CXXMemberCallExpr' and x.get('callee', {}).get('q', '').split('::')[-1] == 'end' and base_lid(x) in maps]
+                if finds and ends:
+                    present_when = (cn['op'] == '!=') != neg
+                    tests.setdefault(base_lid(finds[0]), []).append((bid, key_text(finds[0]), present_when))
+            elif cn['k'] == 'CXXMemberCallExpr' and cn.get('callee', {}).get('q', '').split('::')[-1] == 'count' and base_lid(cn) in maps:
+                tests.setdefault(base_lid(cn), []).append((bid, key_text(cn), not neg))
+        for lid, d in maps.items():
+            if lid not in tests:
+                continue
+            n_tabs += 1
+            for n in f.walk():
+                if n['k'] != 'CXXOperatorCallExpr' or n.get('op') != '[]' or base_lid(n) != lid or n['id'] not in g.pos:
+                    continue
+                par = f.parent(n)
+                while par is not None and par['k'] in facts.TRANSPARENT:
+                    par = f.parent(par)
+                if par is not None and par['k'] in ('CXXOperatorCallExpr', 'BinaryOperator') and par.get('op') == '=' and any(
+                        x is n for x in sub(par['c'][1] if par['k'] == 'CXXOperatorCallExpr' else par['c'][0])):
+                    continue          # explicit insertion  table[id] = element
+                n_reads += 1
+                tb = g.pos[n['id']][0]
+                k = key_text(n)
+                guarded = any(kt == k and bid != tb and edge_dominates(g, bid, lab, tb) for bid, kt, lab in tests[lid])
+                later = None
+                if not guarded:
+                    reach = g.reachable_blocks(tb)
+                    for bid, kt, lab in tests[lid]:
+                        if bid in reach and (bid != tb or True):
+                            # the same block counts only through a cycle
+                            if bid == tb and not any(tb in g.reachable_blocks(s_) for s_ in g.succ(tb)):
+                                continue
+                            later = bid
+                            break
+                rep.check(guarded or later is None, 'R19.8', '%s|%s[%s]#%d' % (f.q.split('::')[-1], d['name'], k, sum(1 for x in f.walk() if x['k'] == 'CXXOperatorCallExpr' and x.get('op') == '[]' and base_lid(x) == lid and x['loc'][1] < n['loc'][1])), locstr(n),
+                          'read of %s[%s] %s' % (d['name'], k, 'under a presence test for the same key' if guarded else 'without presence test, but no presence test of the table is reachable afterwards' if later is None else
+                                                 'WITHOUT a presence test for that key, and a presence test of the table is still reachable (%s): an unknown id is inserted with a null element, passes the later test and the null element is used' % locstr(f.nodes[g.blocks[later]['cond']])))
+    rep.minimum('R19.8', n_tabs, 1, 'id tables with presence tests in the validator')
+    rep.minimum('R19.8', n_reads, 3, 'operator[] reads of the id tables')
+
+
+def pair_enumeration(rep, fb):
+    """R19.7: hasLegalCompletion examines every pair"""
+    from .. import quant
+    rep.rule('R19.7', 'every pair is examined: in hasLegalCompletion the inner loop of the pair enumeration is left only by exhaustion or by a path that does not report the set as legal (a jump out of the inner loop after ONE compatible partner was found skips the remaining partners of that state)')
+    f = fb.fn('uscxml::hasLegalCompletion', required=False) or next((x for x in fb.funcs.values() if x.q.endswith('hasLegalCompletion')), None)
+    if f is None:
+        raise AnalysisBroken('hasLegalCompletion not found')
+    g = cfgm.CFG(f)
+    loops = [n for n in f.walk() if n['k'] in LOOPS]
+    par = {p_['lid'] for p_ in f.d.get('params', [])}
+
+    def iterates_param(l):
+        hdr = [c for c in l.get('c', [])[:-1] if c is not None]
+        return any(x['k'] == 'DeclRefExpr' and x.get('ref', {}).get('lid') in par for h in hdr for x in sub(h))
+    inner = [l for l in loops if iterates_param(l) and any(a['k'] in LOOPS and iterates_param(a) for a in f.ancestors(l))]
+    if not inner:
+        # no nested enumeration in this function (e.g. the pair test lives in a helper and std algorithms enumerate): nothing to skip
+        rep.ok('R19.7', 'hasLegalCompletion', 'no nested pair loop in this form; %d loop(s)' % len(loops))
+        return
+    q = quant.Quant(f, quant.Spec(member=lambda n: 0))
+    for lp in inner:
+        region = {x['id'] for x in sub(lp)}
+        blocks_in = {bid for bid, b in g.blocks.items() if any(e in region for e in b['el']) or (b.get('cond') in region) or (b.get('term') in region) or (b.get('label') in region)}
+        # the loop's own header blocks (condition / increment) are part of the region by construction; early exits are edges
+        # from a region block whose terminator is a goto / break / continue to a block outside the region
+        early = []
+        for bid in blocks_in:
+            b = g.blocks[bid]
+            if b.get('termk') in ('GotoStmt', 'BreakStmt', 'ContinueStmt'):
+                for s_ in g.succ(bid):
+                    if s_ not in blocks_in and s_ != g.exit:
+                        early.append((bid, s_))
+        bad = None
+        for bid, s_ in early:
+            # can a `return <true>` be reached from here?  exact product with the bool locals, unknown initial values
+            seen = set()
+            work = [(s_, 0, frozenset())]
+            while work and bad is None:
+                cb, ci, envf = work.pop()
+                if (cb, ci, envf) in seen:
+                    continue
+                seen.add((cb, ci, envf))
+                env = dict(envf)
+                blk = g.blocks[cb]
+                forked = False
+                for j in range(ci, len(blk['el'])):
+                    n = f.nodes.get(blk['el'][j])
+                    if n is None:
+                        continue
+                    if n['k'] == 'ReturnStmt' and n.get('c'):
+                        if any(v for v, _, _ in q.ev(n['c'][0], env)):
+                            bad = (bid, n)
+                        forked = True
+                        break
+                    tgt = rhs = None
+                    if n['k'] == 'BinaryOperator' and n.get('op') == '=':
+                        l = strip(n['c'][0])
+                        if l['k'] == 'DeclRefExpr' and l.get('ref', {}).get('lid') in q.locals:
+                            tgt, rhs = l['ref']['lid'], n['c'][1]
+                    if tgt is not None:
+                        for v, _, _ in q.ev(rhs, env):
+                            e2 = dict(env)
+                            e2[tgt] = v
+                            work.append((cb, j + 1, frozenset(e2.items())))
+                        forked = True
+                        break
+                if forked or bad:
+                    continue
+                cond = blk.get('cond')
+                cn = f.nodes.get(cond) if cond is not None else None
+                succ = g.succ_labeled(cb)
+                if cn is not None and any(l is not None for _, l in succ):
+                    outs = q.ev(cn, env)
+                    for s2, lab in succ:
+                        if lab is None or any(v == lab for v, _, _ in outs):
+                            work.append((s2, 0, envf))
+                else:
+                    for s2, lab in succ:
+                        work.append((s2, 0, envf))
+        rep.check(bad is None, 'R19.7', 'hasLegalCompletion|inner loop at line %d' % lp['loc'][1], locstr(lp),
+                  'inner pair loop: %d early exit(s) by goto/break/continue; %s' % (len(early), 'none of them can end in `return true`' if bad is None else
+                  'the jump at %s leaves the inner loop and the set can still be reported as legal (%s): the remaining partners of that state are never compared' % (locstr(f.nodes[g.blocks[bad[0]]['term']]) if g.blocks[bad[0]].get('term') in f.nodes else 'block %d' % bad[0], locstr(bad[1]))))
+
+
+def nearest_common_ancestor(rep, fb):
+    """R19.9: the pair test of hasLegalCompletion decides at the least common ancestor"""
+    rep.rule('R19.9', 'two targets are compatible iff their LEAST common ancestor is a parallel: in the ancestor walk of the pair test, the outcome "this ancestor contains the other state" always ends the walk (continuing upwards would accept two children of a compound state as soon as any parallel encloses them)')
+    root = next((x for x in fb.funcs.values() if x.q.endswith('hasLegalCompletion')), None)
+    if root is None:
+        raise AnalysisBroken('hasLegalCompletion not found')
+    cands = [root] + [fb.funcs[n['callee']['m']] for n in root.walk() if n.get('callee') and n['callee'].get('m') in fb.funcs and fb.funcs[n['callee']['m']].file == root.file]
+    found = 0
+    for f in cands:
+        if not f.d.get('cfg'):
+            continue
+        g = cfgm.CFG(f)
+        for lp in f.walk():
+            if lp['k'] not in ('WhileStmt', 'ForStmt', 'DoStmt'):
+                continue
+            body = lp['c'][-1]
+            if body is None:
+                continue
+            # the cursor: a variable assigned from getParentNode inside the loop
+            cursors = set()
+            steps = []
+            for n in sub(lp):
+                if n['k'] == 'BinaryOperator' and n.get('op') == '=' and any(x.get('callee', {}).get('q', '').endswith('getParentNode') for x in sub(n['c'][1])):
+                    l = strip(n['c'][0])
+                    if l['k'] == 'DeclRefExpr' and 'lid' in l.get('ref', {}):
+                        cursors.add(l['ref']['lid'])
+                        steps.append(n)
+            if not cursors:
+                continue
+            tests = [n for n in sub(body) if n['k'] == 'CallExpr' and n.get('callee', {}).get('q', '').endswith('isDescendant') and any(
+                x['k'] == 'DeclRefExpr' and x.get('ref', {}).get('lid') in cursors for x in sub(n))]
+            # the walk is the innermost loop around the test
+            tests = [t_ for t_ in tests if next((a for a in f.ancestors(t_) if a['k'] in ('WhileStmt', 'ForStmt', 'DoStmt')), None) is lp]
+            steps = [s_ for s_ in steps if any(x is s_ for x in sub(lp['c'][-1])) or (lp['k'] == 'ForStmt' and any(x is s_ for c_ in lp['c'][:-1] if c_ for x in sub(c_)))]
+            if not tests:
+                continue
+            found += 1
+            for t in tests:
+                # the block whose condition is (or contains) the test
+                cb = next((bid for bid, b in g.blocks.items() if b.get('cond') is not None and b['cond'] in f.nodes and any(x is t for x in sub(f.nodes[b['cond']]))), None)
+                if cb is None:
+                    raise AnalysisBroken('%s: the common-ancestor test at %s is not a branch condition' % (f.q, locstr(t)))
+                neg = False
+                cn = strip(f.nodes[g.blocks[cb]['cond']])
+                while cn is not None and cn['k'] == 'UnaryOperator' and cn.get('op') == '!':
+                    neg = not neg
+                    cn = strip(cn['c'][0])
+                succ = [s_ for s_, lab in g.succ_labeled(cb) if lab is (not neg)]
+                if not succ:
+                    raise AnalysisBroken('%s: no labelled successor for the test at %s' % (f.q, locstr(t)))
+                # does the walk go on (reach a cursor step of this loop) from the "is a common ancestor" outcome?
+                # ... for the SAME pair: a path that re-seats the cursor (next pair) starts a new walk
+                step_ids = {s_['id'] for s_ in steps}
+                reseat = [x['id'] for x in f.walk() if x['id'] not in step_ids and (
+                    (x['k'] == 'BinaryOperator' and x.get('op') == '=' and strip(x['c'][0])['k'] == 'DeclRefExpr' and strip(x['c'][0]).get('ref', {}).get('lid') in cursors) or
+                    (x['k'] == 'DeclStmt' and any(d_['lid'] in cursors and 'init' in d_ for d_ in x.get('decls', []))))]
+                w = g.can_reach((succ[0], -1), [s_['id'] for s_ in steps if s_['id'] in g.pos], avoid=reseat)
+                rep.check(w is None, 'R19.9', '%s|common ancestor ends the walk' % f.q.split('::')[-1], locstr(t),
+                          'after `%s` holds the ancestor walk %s' % (' '.join(fb.text(t).split())[:50], 'ends (the least common ancestor decides)' if w is None else
+                          'CONTINUES upwards (%s): any enclosing <parallel> makes the pair legal, e.g. two children of one compound state inside a parallel' % locstr(steps[0])))
+    rep.minimum('R19.9', found, 1, 'ancestor walks with a common-ancestor test in the pair test of hasLegalCompletion')
 
 
 LOOPS = ('ForStmt', 'CXXForRangeStmt', 'WhileStmt', 'DoStmt')
